@@ -144,6 +144,27 @@ def spec_cosmutex(tier):
         scen_keys=["opts", "workers", "p1", "p2", "p3", "p4"], trace_timeout=1500)
 
 
+def spec_await(tier):
+    grid = []
+    for form in ("fut", "await", "sticky", "on"):
+        for outs in ("v", "x"):
+            grid.append({"form": form, "n": "1", "outs": outs})
+    for form in ("await", "sticky", "on"):
+        for outs in ("vv", "vx", "xv"):
+            grid.append({"form": form, "n": "2", "outs": outs})
+        grid.append({"form": form, "n": "2", "outs": "vv", "dyn": "1"})
+    for form in ("sticky", "on"):
+        grid.append({"form": form, "n": "1", "outs": "v", "exec": "stop"})
+        grid.append({"form": form, "n": "2", "outs": "vx", "exec": "stop"})
+        grid.append({"form": form, "n": "2", "outs": "vv", "exec": "stop", "dyn": "1"})
+    return ConcSpec(
+        name="Await", scenario="aw", grid=grid, inv_props={}, primary="C13",
+        mc_cfgs=[("Await_MC.cfg", 8, 600, "Await: {co_await, Await, AwaitSticky, AwaitOn} x 1-2 futures x outcomes x "
+                  "{accepting, rejecting executor}, all interleavings")],
+        paths_cfg=None, dfs_max=3000, preempt=None if tier != "quick" else 3,
+        rand_execs=0, rand_grid=[], scen_keys=["form", "n", "outs", "exec", "dyn"], trace_timeout=1500)
+
+
 ALL_STRATS = ["all_none", "all_ff", "join_none", "join_ff"]
 ANY_STRATS = ["any_none", "any_ff", "any_lf"]
 
@@ -247,6 +268,17 @@ def c16(rep, tier, seed):
     rep.assumptions += ["sources: Done by a thread, attached / consumed futures, a bare event Set; waiters: Wait, WaitFor (+Wait "
                         "after a timeout), co_await inline / sticky / on an executor; at most one timed waiter per scenario; "
                         "Add only inside Attach / Consume while M holds its own unit (the documented usage rule); no Reset"]
+
+
+@check("C13")
+def c13(rep, tier, seed):
+    """coroutines resume once, after the awaited event, with its outcome, where asked (Await.tla + compile probe)"""
+    from . import coroprobe
+    coroprobe.check(rep)
+    run_conc(rep, spec_await(tier), tier, seed, {"C13"})
+    rep.assumptions += ["one coroutine awaiting 1-2 unique futures (co_await Future, Await, AwaitSticky, AwaitOn; static and "
+                        "iterator forms); executor of sticky / on: runs the job where it is submitted, or rejects (Drop); "
+                        "SharedFuture awaiting, Task awaiting and Yield are covered by the compile probe only"]
 
 
 @check("C14")
